@@ -430,6 +430,15 @@ func (w *world) opFilter(n int, keep []int) {
 	w.c.Op(fmt.Sprintf("filter %d %s", n, joinInts(keep)), w.obs())
 }
 
+// opCancelDelay: the real CancelTaskDelay (cuts a back-off or an empty-queue wait short).
+func (w *world) opCancelDelay(n int) {
+	if w.bad != "" {
+		return
+	}
+	w.qs[n].q.CancelTaskDelay()
+	w.c.Op(fmt.Sprintf("cancelDelay %d", n), w.obs())
+}
+
 type delivery struct{ q, t int }
 
 // opDeliver sends one event through the real ManagerEventsHandler (schedule channel or kube channel);
